@@ -1,4 +1,5 @@
 import WtfModel.Props.C01
+import WtfModel.Model.Modelled
 import WtfModel.Proofs.LegacyEntry
 import WtfModel.Proofs.ExampleScore
 
@@ -193,6 +194,35 @@ theorem search_with_nlp_temporary_partial (fin : S → S) (T : Tuning S) (tmp : 
   simp only [hu, Bool.not_true, Bool.false_eq_true, ↓reduceIte, hs] at h
   exact nlpTemporary_partial fin T tmp db q o _ r htmp hib h
 
+/-! ### SearchUniversal with every modelled layer plugged in -/
+
+/-- **C01, SearchUniversal, end to end over the modelled layers**: the five clauses hold for every database, query and
+    option set as soon as (1) `idf n df ≥ 0` for `df ≤ n` — a fact about `math.Log` of a number ≥ 1, proved for the
+    real-valued formula (`idf_formula_nonneg`) and monitored on the floats; (2) the fuzzy library's sort returns a sorted
+    permutation of its input (checked per case by the driver); (3) the similarity threshold is non-negative (the code's is
+    0.01).  No hypothesis about the NLP analysis, the NLP factors, the TF-IDF ranking or the BM25F parameters is left. -/
+theorem universal_modelled (idf : Nat → Nat → S) (host : Bytes) (ri : RuneInfo) (normQ : Bytes → Bytes)
+    (fuzzySort : List (Nat × Int) → List (Nat × Int)) (sqrt : S → S) (minSim : S) (idx? : Option (Tfidf.Index S)) (db : Db)
+    (hidf : ∀ n df, df ≤ n → lt (idf n df) (zero : S) = false)
+    (hfz : ∀ ms, (fuzzySort ms).Perm ms ∧ (fuzzySort ms).Pairwise (fun a b => a.2 ≥ b.2))
+    (hmin : Nonneg minSim)
+    (q : Bytes) (o : Opts S) (r : List (Nat × S))
+    (h : search (modelledTuning idf host ri normQ fuzzySort sqrt minSim idx? db) db q o = .ok r) :
+    r.length ≤ effLimit o ∧ (∀ x ∈ r, x.1 < db.length) ∧ (r.map (·.1)).Nodup ∧
+    r.Pairwise (fun a b => lt a.2 b.2 = false) ∧ (∀ x ∈ r, Nonneg x.2) := by
+  have hR : TuningWFRest (modelledTuning idf host ri normQ fuzzySort sqrt minSim idx? db) := by
+    refine ⟨genParams_wf, ?_, ?_, ?_⟩
+    · intro n df hle; exact hidf n df hle
+    · intro rank hr nq x hx
+      cases idx? with
+      | none => simp [modelledTuning] at hr
+      | some idx =>
+        simp only [modelledTuning, Option.map_some, Option.some.injEq] at hr
+        subst hr
+        exact (tfidf_search_rankOK ri sqrt minSim hmin idx nq db.length).2.2 x hx
+    · intro ms; exact hfz ms
+  exact universal_modelled_nlp _ db rfl hR q o r h
+
 /-! ### GetSuggestions -/
 
 omit [ScoreOps S] [ScoreLaws S] in
@@ -275,5 +305,43 @@ example : suggestionWords {} dbL = [bs "/all", bs "adapters", bs "archive", bs "
 example : (getSuggestions Example.tuning dbL (bs "histry") 3).toOption = some [bs "history"] := by decide +kernel
 
 end examples
+
+/-! non-vacuity of `universal_modelled` (S := ℚ): a concrete idf, a real stable sort, the TF-IDF model over a crude
+    integer square root and a constant log table - its hypotheses are satisfiable and the search it speaks about returns
+    something -/
+section examples_modelled_end_to_end
+
+local instance : ScoreOps ℚ := fieldScoreOps ℚ
+local instance : ScoreLaws ℚ := fieldScoreLaws ℚ
+
+private def dbE : Db := [Example.mk "ls -la" "list files" [], Example.mk "tar czf x" "compress directory" [],
+  Example.mk "cat x | grep y" "search text" [] true]
+private def idfE : Nat → Nat → ℚ := fun n df => if df ≤ n then ((n - df : Nat) + 1 : ℚ) / ((df : ℚ) + 1) else 0
+private def sortE : List (Nat × Int) → List (Nat × Int) := fun ms => ms.mergeSort (fun a b => decide (a.2 ≥ b.2))
+private def idxE : Tfidf.Index ℚ := Tfidf.build {} (fun _ _ => 1) (fun x => x) dbE
+private def TE : Tuning ℚ := modelledTuning idfE (Filters.bs "linux") {} (fun q => q) sortE (fun x => x) (1 / 100) (some idxE) dbE
+
+private theorem hidfE : ∀ n df, df ≤ n → ScoreOps.lt (idfE n df) (ScoreOps.zero : ℚ) = false := by
+  intro n df h
+  show decide (idfE n df < 0) = false
+  simp only [idfE, h, ↓reduceIte, decide_eq_false_iff_not, not_lt]
+  positivity
+
+private theorem hsortE : ∀ ms, (sortE ms).Perm ms ∧ (sortE ms).Pairwise (fun a b => a.2 ≥ b.2) := by
+  intro ms
+  refine ⟨List.mergeSort_perm _ _, ?_⟩
+  have := List.pairwise_mergeSort (le := fun (a b : Nat × Int) => decide (a.2 ≥ b.2))
+    (by intro a b c h1 h2; simp only [decide_eq_true_eq] at *; omega)
+    (by intro a b; simp only [Bool.or_eq_true, decide_eq_true_eq]; omega) ms
+  exact this.imp (by intro a b h; simpa using h)
+
+example : ∀ q o r, search TE dbE q o = .ok r →
+    r.length ≤ effLimit o ∧ (∀ x ∈ r, x.1 < dbE.length) ∧ (r.map (·.1)).Nodup ∧ (∀ x ∈ r, Nonneg x.2) :=
+  fun q o r h =>
+    let p := universal_modelled idfE (Filters.bs "linux") {} (fun q => q) sortE (fun x => x) (1 / 100) (some idxE) dbE hidfE hsortE
+      (by show decide ((1 / 100 : ℚ) < 0) = false; simp) q o r h
+    ⟨p.1, p.2.1, p.2.2.1, p.2.2.2.2⟩
+
+end examples_modelled_end_to_end
 
 end Wtf.C01
